@@ -227,7 +227,7 @@ func runC09(rc *RunCtx, i int) {
 	}
 	// release and drain
 	gate.Open()
-	fctx, fcancel := context.WithTimeout(context.Background(), 60*time.Second)
+	fctx, fcancel := context.WithTimeout(context.Background(), core.Patience)
 	e.Flush(fctx)
 	fcancel()
 	time.Sleep(2 * time.Millisecond)
